@@ -11,9 +11,9 @@ I/O are runtime behaviour no model exhibits; they are covered by the differentia
 namespace Wellen.VcdBody
 open Wellen.Store
 
-theorem C14_stop_irrelevant (bs : List Nat) (s : Nat) (h : bs.length ≤ s + 2) :
-    parseBody (some s) bs = parseBody none bs :=
-  parseBody_stop_irrelevant bs s h
+theorem C14_stop_irrelevant (bs : List Nat) (s : Nat) (nl : Bool) (h : bs.length ≤ s + 2) :
+    parseBody (some s) bs nl = parseBody none bs nl :=
+  parseBody_stop_irrelevant bs s nl h
 
 /-- the stream entry point and the memory-mapped single-threaded entry point build the same store -/
 theorem C14_reader_eq_mmap (c : Codec) (d : Decls) (rm : RealMap) (body : List Nat) (fileLen : Nat)
@@ -24,7 +24,7 @@ theorem C14_reader_eq_mmap (c : Codec) (d : Decls) (rm : RealMap) (body : List N
      | .panic, .panic => True
      | _, _ => False) := by
   simp only [readValues, readStream]
-  rw [C14_stop_irrelevant body fileLen (by omega), C14_stop_irrelevant body (body.length - 1) (by omega)]
+  rw [C14_stop_irrelevant body fileLen false (by omega), C14_stop_irrelevant body (body.length - 1) false (by omega)]
   cases applyEvs c d rm { enc := newEnc d.sigTypes, isFirst := true }
       (match parseBody none body with | .ok e => e | .err e => e) with
   | none => trivial
